@@ -19,7 +19,7 @@ func init() {
 			"of the documented v4 event header, little-endian, pairwise disjoint, and the package's own writer (Packetize) writes the same ranges; (R4) the fixed-offset reads of the " +
 			"format-description, rotate, query, int-var, rand and GTID body parsers — extracted as affine offset terms with their destinations — equal the documented event layouts " +
 			"(e.g. rotate: position [0,8) then file name [8,end); query: db length at 8, status-vars length at [11,13), vars at 13, db name after the vars, SQL after db name + NUL); " +
-			"(R5) the query status-variable scanner advances by the documented size of every variable that precedes the charset. " +
+			"(R5) the query status-variable scanner advances by the documented size of every variable that precedes the charset; (R6) the parser tests every event for FORMAT_DESCRIPTION whether or not a format is known and adopts the decoded format; each BinlogFormat field is stored once, from the event. " +
 			"Not decided: the decoded values themselves (endianness of multi-byte body fields is checked, arithmetic on them is not).",
 		Rule:        "instances = invokes on events in the parser, algorithm values 0..255 per flavour, byte ranges of header accessors and writer, body read facts per parser",
 		Trusted:     append([]string{"MySQL internals documentation of the v4 event header and event bodies (encoded as the spec table in rules_c16.go)"}, commonTrusted...),
@@ -56,6 +56,12 @@ func init() {
 		Variant{ID: "c16-r4-rand-swap", Prop: "C16", File: "replication/binlog_event_common.go",
 			Old: "\tseed1 = binary.LittleEndian.Uint64(data[0:8])\n\tseed2 = binary.LittleEndian.Uint64(data[8 : 8+8])", New: "\tseed2 = binary.LittleEndian.Uint64(data[0:8])\n\tseed1 = binary.LittleEndian.Uint64(data[8 : 8+8])",
 			Expect: "C16-R4 layout@Rand"},
+		Variant{ID: "c16-r6-format-only-first", Prop: "C16", File: "streamer.go",
+			Old: "\t\tif ev.IsFormatDescription() {\n", New: "\t\tif format.IsZero() && ev.IsFormatDescription() {\n",
+			Expect: "C16-R6 format-redescription@parser"},
+		Variant{ID: "c16-r4-alg-overridden", Prop: "C16", File: "replication/binlog_event_common.go",
+			Old: "\tf.ChecksumAlgorithm = data[len(data)-5]\n", New: "\tf.ChecksumAlgorithm = data[len(data)-5]\n\tif len(f.ServerVersion) > 0 && f.ServerVersion[0] < '5' {\n\t\tf.ChecksumAlgorithm = BinlogChecksumAlgOff\n\t}\n",
+			Expect: "C16-R4 layout@Format[single-source:ChecksumAlgorithm]"},
 		Variant{ID: "c16-r5-sqlmode-size", Prop: "C16", File: "replication/binlog_event_common.go",
 			Old: "\t\tcase QSQLModeCode:\n\t\t\tpos += 8", New: "\t\tcase QSQLModeCode:\n\t\t\tpos += 4",
 			Expect: "C16-R5 statusvar@Query[code=1]"},
@@ -66,6 +72,7 @@ func runC16(a *A) {
 	r := resolveRoles(a, "C16-R0")
 	if r != nil {
 		c16R1(a, r)
+		c16R6(a, r)
 	}
 	c16R2(a)
 	c16R3(a)
@@ -115,6 +122,46 @@ func c16R1(a *A, r *Roles) {
 		}
 	})
 	a.atLeast(rule, "stripped-recv@parser", 10)
+}
+
+// R6: a format description is honoured whenever it arrives - its dispatch is not restricted to "no format known yet" -
+// and on success its result becomes the format used from the next event on.
+func c16R6(a *A, r *Roles) {
+	const rule = "C16-R6"
+	w := a.W
+	ar := armAnalysis(w, r)
+	var fdIf *ssa.If
+	for _, p := range ar.Preds {
+		if p.Name == "raw.IsFormatDescription" {
+			fdIf = p.If
+		}
+	}
+	if !a.need(fdIf != nil, rule, "format-description dispatch in the parser") {
+		return
+	}
+	restricted := false
+	for _, ce := range dominatingConds(fdIf.Block()) {
+		if c, ok := ce.Cond.(*ssa.Call); ok {
+			if f := c.Common().StaticCallee(); f != nil && f.Name() == "IsZero" && ce.Val {
+				restricted = true
+			}
+		}
+	}
+	a.check(!restricted, rule, "format-redescription@parser", w.posOf(fdIf), "every event is tested for FORMAT_DESCRIPTION, whether or not a format is already known",
+		"format descriptions are only honoured while no format is known: one that arrives later (after a rotation, when binlog_checksum or the server version changed) is ignored and the rest of the stream is decoded with the stale checksum algorithm and header sizes")
+	// the Format() result reaches the loop variable
+	phi, ok := r.FormatPhi.(*ssa.Phi)
+	okFlow := false
+	if ok {
+		for _, e := range phi.Edges {
+			if ex, isEx := e.(*ssa.Extract); isEx && ex.Index == 0 {
+				if c, isC := ex.Tuple.(*ssa.Call); isC && c.Common().IsInvoke() && c.Common().Method.Name() == "Format" && c.Common().Value == r.RawEv {
+					okFlow = true
+				}
+			}
+		}
+	}
+	a.check(okFlow, rule, "format-adopted@parser", w.posOf(fdIf), "the decoded format becomes the current format", "the result of Format() on the received event does not become the format used for later events")
 }
 
 // R2: StripChecksum per algorithm value.
@@ -411,6 +458,23 @@ func c16R4(a *A) {
 			a.check(strings.Join(got, "|") == strings.Join(want, "|"), rule, "layout@"+name+"["+d+"]", w.pos(f.Pos()),
 				fmt.Sprintf("%s <- %s", d, strings.Join(want, "|")),
 				fmt.Sprintf("%s is decoded from %v; the documented layout puts it at %v", d, got, want))
+		}
+		// each result field is stored exactly once (a second, conditional store overrides what was read from the event)
+		if sp.Method == "Format" {
+			cnt := map[string]int{}
+			instrs(f, func(in ssa.Instruction) {
+				if st, ok := in.(*ssa.Store); ok {
+					if fa, ok := st.Addr.(*ssa.FieldAddr); ok && typeIs(fa.X.Type(), replPath, "BinlogFormat") {
+						if _, isAlloc := fa.X.(*ssa.Alloc); isAlloc {
+							cnt[fieldName(fa)]++
+						}
+					}
+				}
+			})
+			for fld, n := range cnt {
+				a.check(n == 1, rule, "layout@"+name+"[single-source:"+fld+"]", w.pos(f.Pos()), fld+" is set once, from the event",
+					fmt.Sprintf("BinlogFormat.%s is stored %d times in Format(): a later store overrides the value read from the event (e.g. a checksum algorithm guessed from the server version), so the decoded format is not what the master wrote", fld, n))
+			}
 		}
 		// forbidden: a constant-range read the layout does not define
 		allowed := map[string]bool{}
